@@ -21,7 +21,8 @@ P(ty, opt, sub) == [ty |-> ty, opt |-> opt, sub |-> sub]
 \* n s b a o f j x (ns) a<n> a<s>
 Types == { <<1, <<>>>>, <<2, <<>>>>, <<4, <<>>>>, <<16, <<>>>>, <<32, <<>>>>, <<64, <<>>>>, <<128, <<>>>>, <<256, <<>>>>, <<3, <<>>>>,
            <<18, <<>>>>, <<17, <<>>>>, <<20, <<>>>>,      \* unions with the array type: (sa) (na) (ba)
-           <<16, <<P(1, 0, <<>>)>>>>, <<16, <<P(2, 0, <<>>)>>>> }
+           <<16, <<P(1, 0, <<>>)>>>>, <<16, <<P(2, 0, <<>>)>>>>,
+           <<16, <<P(16, 0, <<P(1, 0, <<>>)>>)>>>>, <<16, <<P(16, 0, <<P(3, 0, <<>>)>>)>>>> }      \* a<a<n>>  a<a<(ns)>> : subtypes are enforced at every level
 Params == {P(t[1], o, t[2]) : t \in Types, o \in 0..3}
 \* an option is meaningful in these positions: - first, + last, ? trailing; all others are still tried
 Sigs == UNION {[1..n -> Params] : n \in 1..MaxParams}
@@ -29,7 +30,8 @@ WellFormedSig(sg) == \A i \in 1..Len(sg) : (sg[i].opt = 2 => i = Len(sg)) /\ (sg
                                           /\ (sg[i].opt = 1 => \A j \in i..Len(sg) : sg[j].opt \in {1, 2})
 
 ArgNodes == << NNum(IntV(1)), NStr(kx), NBool(TRUE), NArray(<<NNum(IntV(1)), NNum(IntV(2))>>), NArray(<<NStr(kx)>>), NArray(<<>>),
-               NObject(<< <<NStr(ka), NNum(IntV(1))>> >>), V("sum"), PA(<<NName(<<110, 111>>)>>), NNull >>
+               NObject(<< <<NStr(ka), NNum(IntV(1))>> >>), V("sum"), PA(<<NName(<<110, 111>>)>>), NNull,
+               NArray(<<NArray(<<NNum(IntV(1)), NNum(IntV(2))>>), NArray(<<NNum(IntV(3))>>)>>), NArray(<<NArray(<<NNum(IntV(1))>>), NArray(<<NStr(kx)>>)>>), NArray(<<NArray(<<>>)>>) >>
 ArgLists == UNION {[1..n -> 1..Len(ArgNodes)] : n \in 0..MaxArgs}
 ParamNames == <<"p", "q", "r">>
 \* the function returns what it received, so the binding of each parameter is observable
@@ -139,6 +141,14 @@ CtxProgs == { PA(<<NName(ka), SB(NStr(<<122>>))>>),
               PA(<<NName(ka), NCall(V("pad"), <<NCall(V("length"), <<>>)>>)>>),
               PA(<<NName(kc), NCall(V("contains"), <<PA(<<V("$"), NName(kb), NName(kc), NCall(V("substring"), <<NNum(IntV(0)), NNum(IntV(1))>>)>>)>>)>>),
               PA(<<NName(kb), NName(kc), NCall(V("substringAfter"), <<PA(<<V("$"), NName(ka), NCall(V("substring"), <<NNum(IntV(1)), NNum(IntV(1))>>)>>)>>)>>),
+              \* a function written at the root and called inside a path step reads the context item of where it was written
+              NBlock(<<NAssign("f", NLambda(<<"x">>, NArray(<<V("x"), PA(<<NName(ka)>>)>>))), PA(<<NName(kc), NCall(V("f"), <<NVar("")>>)>>)>>),
+              NBlock(<<NAssign("f", [k |-> "TypedLambda", params |-> <<"x">>, body |-> NArray(<<V("x"), PA(<<NName(ka)>>)>>), short |-> FALSE, sig |-> <<P(2, 0, <<>>)>>, sigout |-> <<>>]),
+                       PA(<<NName(kc), NCall(V("f"), <<NVar("")>>)>>)>>),
+              NBlock(<<NAssign("f", [k |-> "TypedLambda", params |-> <<"x">>, body |-> NArray(<<V("x"), PA(<<NName(ka)>>)>>), short |-> FALSE, sig |-> <<P(2, 3, <<>>)>>, sigout |-> <<>>]),
+                       PA(<<NName(kc), NCall(V("f"), <<NVar("")>>)>>)>>),
+              NBlock(<<NAssign("f", [k |-> "TypedLambda", params |-> <<"x">>, body |-> NArray(<<V("x"), PA(<<NName(ka)>>)>>), short |-> FALSE, sig |-> <<P(2, 3, <<>>)>>, sigout |-> <<>>]),
+                       PA(<<NName(kc), NCall(V("f"), <<>>)>>)>>),
               \* the callee is not a plain variable: a block, a conditional, a call that returns the built-in
               PA(<<NName(ka), NCall(NBlock(<<V("uppercase")>>), <<>>)>>), PA(<<NName(ka), NCall(NBlock(<<V("substringBefore")>>), <<NStr(<<122>>)>>)>>),
               PA(<<NName(ka), NCall(NCond(NBool(TRUE), V("uppercase"), V("lowercase")), <<>>)>>), PA(<<NName(ka), NCall(NCond(NBool(FALSE), V("uppercase"), V("length")), <<>>)>>),
